@@ -195,7 +195,7 @@ RunRecord ==
                                                            <<[name |-> x[1], states |-> x[2], acts |-> ActsOf(x[2])]>> \o F(T \ {x})
                              IN F(S)]]
 
-Judged == {"paths", "subset", "once", "complete", "verdicts", "witness", "ev_sound", "ev_exact", "bfs_order", "shortest", "stop_reason"}
+Judged == {"no_panic", "paths", "subset", "once", "complete", "verdicts", "witness", "ev_sound", "ev_exact", "bfs_order", "shortest", "stop_reason"}
 (* at the end of every behaviour the observation passes exactly the checks real runs must pass *)
 EndOK == AllDone => (Failed(g, RunRecord) \cap Judged) = {}
 (* C03 at every moment: whatever is in the discovery map is a genuine witness *)
